@@ -878,12 +878,7 @@ func handleRestore(execCtx *rapidContext, restore *interop.Restore) (interop.Res
 }
 
 func startRuntimeAPI(ctx context.Context, execCtx *rapidContext) {
-	// Start Runtime API Server
-	err := execCtx.server.Listen()
-	if err != nil {
-		log.WithError(err).Panic("Runtime API Server failed to listen")
-	}
-
+	// Serve the Runtime API; Start has already bound the listener
 	execCtx.server.Serve(ctx) // blocking until server exits
 
 	// Note, most of initialization code should run before blocking to receive START,
